@@ -65,6 +65,15 @@ CHECKS = {
               "live. Classical isolation is C04's frame clause."),
         technique="contract-based deductive verification: inductive representation invariant per public operation on symbolic executor states, z3 (arrays, LIA, quantifiers)",
         design_ref="5.C13"),
+    "C12": dict(
+        category="proof",
+        text=("Atomic-step contracts cover every interleaving of instruction steps and response deliveries (the executor is single threaded; other activity only at "
+              "yield points): delivery of a response == spec function epr.deliver on the abstract view, proved symbolically for every request-queue shape with up to 3 "
+              "outstanding requests (create/receive roles and two sockets mixed, 1..3 pairs, symbolic progress) and up to 2 earlier pending responses, all identifiers "
+              "symbolic; request registration appends at the end of the right queue; wait_all/any/single resume only when the awaited entries are defined. Safety reading "
+              "only (at most once, oldest first, slice k); the largest shapes (4-5 objects) run in the thorough tier."),
+        technique="contract-based deductive verification: atomic-step contracts against a spec function (z3 arrays + LIA + quantified well-formedness), loop contracts for the wait instructions",
+        design_ref="5.C12"),
     "C19": dict(
         category="proof",
         text=("Loop-invariant proof of get_angle_spec_from_float over the reals for every angle and every tolerance in [1e-9, 1]: the real loop "
